@@ -270,6 +270,12 @@ func (e *Engine) resolveType(t *STypeExpr) RType {
 			return RType{nil, SCVL}
 		case "Data":
 			return RType{nil, "Data"}
+		case "AnySet":
+			return RType{nil, ArraySort(SAny, SBool)}
+		case "AnyMap":
+			return RType{nil, ArraySort(SAny, SAny)}
+		case "AnyElems":
+			return RType{nil, ArraySort(SInt, ArraySort(SInt, SAny))}
 		case "any":
 			ty := types.Universe.Lookup("any").Type()
 			return RType{ty, SAny}
